@@ -111,8 +111,9 @@ def r81(rep: Report, ctx: Ctx) -> None:
     if not (isinstance(test, ast.Compare) and len(test.ops) == 1):
         raise AnalysisError(f"{fi.qualname}: chain decision test "
                             f"'{unparse(ifst.test)}' is not a comparison")
-    orig = ifst.test.operand if isinstance(ifst.test, ast.UnaryOp) \
-        else ifst.test
+    orig = defs.resolve(ifst.test)
+    if isinstance(orig, ast.UnaryOp) and isinstance(orig.op, ast.Not):
+        orig = defs.resolve(orig.operand)
     sides_o = [orig.left, orig.comparators[0]] if isinstance(
         orig, ast.Compare) else [None, None]
     sides = [test.left, test.comparators[0]]
